@@ -9,20 +9,31 @@
 (* configuration (what iterating a HashMap means: any permutation) TLC     *)
 (* produces the two-target counterexample -- kept as a regression test of  *)
 (* the model itself (MC_C16_hashed.cfg is expected to FAIL).               *)
+(* Process history: each of the two expansions runs in a process that has  *)
+(* expanded some other input before (hist1 / hist2: nothing, or an enum of *)
+(* the same name whose discriminants need another integer width).  With    *)
+(* Memo = "none" nothing survives an expansion; with Memo = "by_name" (a   *)
+(* per-process cache keyed by the type name -- MC_C16_memo.cfg, expected   *)
+(* to FAIL) the width emitted for the ordering impls comes from the first  *)
+(* expansion of that name.                                                  *)
 (***************************************************************************)
 EXTENDS Naturals, Sequences, FiniteSets, TLC, Json
 
 CONSTANTS MaxTargets,     \* targets are 1..MaxTargets (u8, u16, u32, u64)
           MapOrder,       \* "ordered" | "hashed"
-          OtherTraits     \* sets of other traits educed alongside (fixed order Debug < Clone < ...)
+          OtherTraits,    \* sets of other traits educed alongside (fixed order Debug < Clone < ...)
+          Memo            \* "none" | "by_name": what a process remembers from earlier expansions
 
 HandlerOrder == <<"Debug", "Clone", "Copy", "PartialEq", "Eq", "PartialOrd", "Ord", "Hash", "Default", "Deref", "DerefMut", "Into">>
 
-VARIABLES input, hq1, hq2, todo1, todo2, items1, items2, phase
-vars == <<input, hq1, hq2, todo1, todo2, items1, items2, phase>>
+VARIABLES input, hq1, hq2, todo1, todo2, items1, items2, phase, hist1, hist2
+vars == <<input, hq1, hq2, todo1, todo2, items1, items2, phase, hist1, hist2>>
+Widths == {8, 16}
+NoHist == 0
 
 Init ==
-  /\ input = [targets |-> {}, others |-> {}, kind |-> "struct"]
+  /\ input = [targets |-> {}, others |-> {}, kind |-> "struct", width |-> 8]
+  /\ hist1 = NoHist /\ hist2 = NoHist
   /\ hq1 = <<>> /\ hq2 = <<>> /\ todo1 = {} /\ todo2 = {}
   /\ items1 = <<>> /\ items2 = <<>>
   /\ phase = "choose"
@@ -35,30 +46,38 @@ Handlers(inp) ==
 
 Choose ==
   /\ phase = "choose"
-  /\ \E ts \in SUBSET (1..MaxTargets) : \E os \in OtherTraits : \E k \in {"struct", "enum"} :
+  /\ \E ts \in SUBSET (1..MaxTargets) : \E os \in OtherTraits : \E k \in {"struct", "enum"} : \E w \in Widths :
        /\ (ts # {} \/ os # {})
-       /\ input' = [targets |-> ts, others |-> os, kind |-> k]
+       /\ (k = "struct" => w = 8)
+       /\ input' = [targets |-> ts, others |-> os, kind |-> k, width |-> w]
        /\ hq1' = Handlers(input') /\ hq2' = Handlers(input')
        /\ PrintT(<<"INPUT", ToJson([targets |-> [i \in 1..MaxTargets |-> i \in ts],
-                                    others |-> [i \in DOMAIN HandlerOrder |-> HandlerOrder[i] \in os], kind |-> k])>>)
+                                    others |-> [i \in DOMAIN HandlerOrder |-> HandlerOrder[i] \in os], kind |-> k, width |-> w])>>)
   /\ todo1' = {} /\ todo2' = {} /\ items1' = <<>> /\ items2' = <<>>
+  /\ hist1' \in {NoHist} \cup Widths /\ hist2' \in {NoHist} \cup Widths     \* what each process expanded before under the same name
   /\ phase' = "run"
 
 \* one expansion step: run the next handler; the Into handler emits its targets one by one
 NextTarget(todo) ==
   IF MapOrder = "ordered" THEN { CHOOSE t \in todo : \A u \in todo : t <= u } ELSE todo
 
-Step(hq, todo, items, hqN, todoN, itemsN) ==
+\* the ordering impls of an enum mention the discriminant integer type
+EmittedWidth(h, hist) ==
+  IF h \in {"PartialOrd", "Ord"} /\ input.kind = "enum"
+  THEN (IF Memo = "by_name" /\ hist # NoHist THEN hist ELSE input.width)
+  ELSE 0
+
+Step(hq, todo, items, hist, hqN, todoN, itemsN) ==
   IF hq = <<>> THEN FALSE
   ELSE IF Head(hq) # "Into"
-  THEN hqN = Tail(hq) /\ todoN = todo /\ itemsN = Append(items, <<Head(hq), 0>>)
+  THEN hqN = Tail(hq) /\ todoN = todo /\ itemsN = Append(items, <<Head(hq), EmittedWidth(Head(hq), hist)>>)
   ELSE IF todo = {} /\ ~\E k \in DOMAIN items : items[k][1] = "Into"
   THEN hqN = hq /\ todoN = input.targets /\ itemsN = items        \* load the target map
   ELSE IF todo = {} THEN hqN = Tail(hq) /\ todoN = {} /\ itemsN = items
   ELSE \E t \in NextTarget(todo) : hqN = hq /\ todoN = todo \ {t} /\ itemsN = Append(items, <<"Into", t>>)
 
-Step1 == phase = "run" /\ Step(hq1, todo1, items1, hq1', todo1', items1') /\ UNCHANGED <<input, hq2, todo2, items2, phase>>
-Step2 == phase = "run" /\ Step(hq2, todo2, items2, hq2', todo2', items2') /\ UNCHANGED <<input, hq1, todo1, items1, phase>>
+Step1 == phase = "run" /\ Step(hq1, todo1, items1, hist1, hq1', todo1', items1') /\ UNCHANGED <<input, hq2, todo2, items2, phase, hist1, hist2>>
+Step2 == phase = "run" /\ Step(hq2, todo2, items2, hist2, hq2', todo2', items2') /\ UNCHANGED <<input, hq1, todo1, items1, phase, hist1, hist2>>
 
 Next == Choose \/ Step1 \/ Step2
 Spec == Init /\ [][Next]_vars
